@@ -124,8 +124,8 @@ impl Choose for Dfs {
 pub enum Run<T> {
     Done(T, RunStats),
     Panic(PanicInfo),
-    /// logical step budget exhausted: the system never became quiescent
-    Livelock,
+    /// logical step budget exhausted: the system never became quiescent (log tail attached)
+    Livelock(Vec<String>),
     /// wall clock watchdog (inconclusive)
     Watchdog,
 }
@@ -139,11 +139,12 @@ impl<T> Run<T> {
     }
 }
 
-pub const STEP_BUDGET: u64 = 400_000;
+pub const STEP_BUDGET: u64 = 3_000_000;
 
 /// Execute one scenario on a fresh runtime.
 pub fn exec<T, F: Future<Output = T>>(fut: F) -> Run<T> {
-    exec_with(fut, STEP_BUDGET, Duration::from_secs(30))
+    let steps = std::env::var("VERIF_STEP_BUDGET").ok().and_then(|s| s.parse().ok()).unwrap_or(STEP_BUDGET);
+    exec_with(fut, steps, Duration::from_secs(30))
 }
 
 pub fn exec_with<T, F: Future<Output = T>>(fut: F, steps: u64, watchdog: Duration) -> Run<T> {
@@ -151,7 +152,7 @@ pub fn exec_with<T, F: Future<Output = T>>(fut: F, steps: u64, watchdog: Duratio
     match pool::catch(|| rt::run(fut, steps, watchdog)) {
         Ok((v, st)) => Run::Done(v, st),
         Err(p) => match rt::take_abort() {
-            Abort::StepBudget => Run::Livelock,
+            Abort::StepBudget => Run::Livelock(crate::app::App::last_log_tail(40)),
             Abort::Watchdog => Run::Watchdog,
             Abort::None => Run::Panic(p),
         },
